@@ -124,7 +124,8 @@ def exec_mix(case):
 def twin_cases(draw):
     c = sampler_cfg(draw)
     c.update({"common": draw(st.integers(0, 2**31 - 1)), "a": draw(st.integers(0, 2**31 - 1)), "b": draw(st.integers(0, 2**31 - 1)),
-              "t_div": draw(st.integers(0, 9)), "op": draw(st.sampled_from(["sample", "sample", "run", "posterior"]))})
+              "t_div": draw(st.integers(0, 9)), "op": draw(st.sampled_from(["sample", "sample", "run", "posterior"])),
+              "rs": draw(st.one_of(st.none(), st.integers(0, 10**6)))})
     return c
 
 
@@ -135,7 +136,7 @@ def exec_twin(case):
     n_fits = 0
     for sd in (case["a"], case["b"]):
         np.random.seed(case["common"])
-        s, t = build(case)
+        s, t = build(case, random_state=case.get("rs"))  # a sampler constructed with its own random_state must not re-apply it later
         core = s._core
         core._initialize_fresh()
         with quiet():
